@@ -376,6 +376,9 @@ func (ex *Exec) spawn(fv Value, args []Value, site ssa.Instruction) {
 	ex.gos = append(ex.gos, func() {
 		ex.callValue(nil, fv, args, site)
 	})
+	// a goroutine started by another goroutine (not by the main line, which starts the service
+	// loops) is unordered with respect to its siblings
+	ex.gosDyn = append(ex.gosDyn, ex.inGos)
 }
 
 // runGoroutines runs every spawned goroutine until it completes or blocks. A blocked
@@ -389,10 +392,26 @@ func (ex *Exec) runGoroutines() {
 	ex.inGos = true
 	defer func() { ex.inGos = false }()
 	ex.gos = append(ex.parked, ex.gos...)
+	ex.gosDyn = append(make([]bool, len(ex.parked)), ex.gosDyn...)
 	ex.parked = nil
 	for len(ex.gos) > 0 {
-		g := ex.gos[0]
-		ex.gos = ex.gos[1:]
+		idx := 0
+		if ex.gosDyn[0] {
+			// the queued goroutines that were started during this drain may run in any order:
+			// which one goes next is a fork of the path
+			var dyn []int
+			for i, d := range ex.gosDyn {
+				if d {
+					dyn = append(dyn, i)
+				}
+			}
+			if len(dyn) > 1 {
+				idx = dyn[ex.choice(len(dyn))]
+			}
+		}
+		g := ex.gos[idx]
+		ex.gos = append(ex.gos[:idx:idx], ex.gos[idx+1:]...)
+		ex.gosDyn = append(ex.gosDyn[:idx:idx], ex.gosDyn[idx+1:]...)
 		func() {
 			saved := ex.cur
 			sdepth := ex.depth
